@@ -188,6 +188,21 @@ def _viacmd(case):
             for v in viols[nv:]:
                 v["key"] += ":unsigned-input"
             outcomes["%s:viacmd:%s" % (op, oc)] = outcomes.get("%s:viacmd:%s" % (op, oc), 0) + 1
+    # the SAME result listed twice (a legitimate way of counting a layer double): Sum([A, A, B]) is 2A + B
+    if op in ("Sum", "Multiply", "Minimum", "Maximum", "Mean") and n <= 2:
+        for dts in itertools.product(("int", "float"), repeat=n):
+            lats = [lat_f if d == "float" else lat_s for d in dts]
+            tuples = list(itertools.product(*lats))
+            cols = [[t[i] for t in tuples] for i in range(n)]
+            arrays = [D.mk_array(c, dtype=d) for c, d in zip(cols, dts)]
+            res = D.run_via_command(op, arrays, {}, repeat_first=True)
+            evals += len(tuples)
+            tag = {"op": op, "n": n + 1, "dtypes": [dts[0]] + list(dts), "inputs": "the first result is listed twice", "through": "Command.run"}
+            nv = len(viols)
+            oc = D.judge("C07", op, {}, [cols[0]] + cols, res, (len(tuples),), viols, tag, counters, V)
+            for v in viols[nv:]:
+                v["key"] += ":result-listed-twice"
+            outcomes["%s:viacmd-repeat:%s" % (op, oc)] = outcomes.get("%s:viacmd-repeat:%s" % (op, oc), 0) + 1
     # NARROW unsigned types (byte / 16-bit rasters handed over by a plug-in command or through the API) holding values in the upper half of their
     # range, for the commands whose results fit: differences, extremes, means and quotients
     if op in NARROW_OPS and n <= 2:
